@@ -145,6 +145,45 @@ def copy_case(src_kind, dst_kind, later, via_link=False):
     return h
 
 
+def copy_inside_context_case(src_kind, how):
+    """copy() taken while the source is inside its own write context; the returned object
+    is then used (directly, or through a context of its own) while that context is still
+    open.  Whatever the library accepts, nothing may land in the source file."""
+    def h(I):
+        def P(label, cond, note=""):
+            return I.prove(f"C17.{label}", cond, note)
+        fs = I.fs()
+        Tdf = I.mod("basictdf").Tdf
+        tb = I.mod("tdfBlock")
+        n = int(src_kind[3])
+        live = tuple(t for t, _ in C.POOL[: int(src_kind[4])])
+        smodel, sspec = C.make_prestate(I, fs, "s.tdf", n, live, tag="src")
+        spre = fs.obs("s.tdf")
+        src = Tdf(fs.path("s.tdf"))
+        excs = []
+        with src.allow_write() as s_:
+            cp = s_.copy(fs.path("d.tdf"))
+            unchanged(I, P, fs, spre, smodel, None, None, n, "c", ".copy_identical_to_source", name="d.tdf")
+            newty = C.POOL[len(live)][0]
+            blk, _ = C.opaque_block(I, newty, "m0", budget=[sspec["total"]])
+            try:
+                if how == "direct_add":
+                    cp.add_block(blk)
+                elif how == "direct_remove":
+                    cp.remove_block(tb.BlockType(live[0]))
+                else:
+                    with cp.allow_write() as c_:
+                        c_.add_block(blk)
+                exc = None
+            except Exception as e:  # noqa: BLE001
+                exc = e
+            I.observe("exc", type(exc).__name__ if exc else None)
+            unchanged(I, P, fs, spre, smodel, None, None, n, "o", ".source_after_using_the_copy", name="s.tdf")
+        unchanged(I, P, fs, spre, smodel, None, None, n, "o2", ".source_after_using_the_copy.closed", name="s.tdf")
+        I.goal("done")
+    return h
+
+
 def sibling_case(op, sib_kind):
     """The target name has no extension and is absent; a file called <name>.tdf exists.
     Creating / copying to <name> must leave every pre-existing file untouched."""
@@ -201,11 +240,20 @@ def open_case(kind):
             t = Tdf(fs.path("x.tdf"))
             with t:
                 pass
-            k = int(kind[8:])
-            raw = I.rawbytes("raw", k)
-            if k >= 16:
-                I.assume(I.not_(raw[:16] == SF.SIGNATURE))
-            fs.create_raw("x.tdf", raw)
+            if kind == "replaced_sig":
+                # the new content is a complete table and data area behind 16 bytes that are
+                # not the signature
+                sig = I.rawbytes("sig", 16)
+                I.assume(I.not_(sig == SF.SIGNATURE))
+                spec2 = dict(spec)
+                spec2["signature"] = sig
+                fs.create("x.tdf", spec2)
+            else:
+                k = int(kind[8:])
+                raw = I.rawbytes("raw", k)
+                if k >= 16:
+                    I.assume(I.not_(raw[:16] == SF.SIGNATURE))
+                fs.create_raw("x.tdf", raw)
             for how in ("with", "getter"):
                 h0 = fs.open_handles()
                 try:
@@ -267,6 +315,9 @@ def instances(tier):
             out.append(Instance(f"copy.{s}.to.{d}", copy_case(s, d, None), goals=["absent" if d == "absent" else "exists"]))
         for later in ("mutate_copy", "mutate_source"):
             out.append(Instance(f"copy.{s}.then.{later}", copy_case(s, "absent", later), goals=["absent"]))
+    for s in (["tdf21"] if q else ["tdf21", "tdf32"]):
+        for how in ("direct_add", "direct_remove", "own_context"):
+            out.append(Instance(f"copy.{s}.inside_write_context.{how}", copy_inside_context_case(s, how), goals=["done"]))
     for s in (["tdf21"] if q else ["tdf21", "tdf20", "tdf32"]):
         for later in ("mutate_copy", "mutate_source"):
             out.append(Instance(f"copy.{s}.via_symlink.then.{later}", copy_case(s, "absent", later, via_link=True), goals=["absent"]))
@@ -277,6 +328,6 @@ def instances(tier):
     for op in ("new", "copy"):
         for sk in ("tdf21", "raw5", "raw0"):
             out.append(Instance(f"sibling.{op}.{sk}", sibling_case(op, sk), goals=["done"]))
-    for k in ["missing", "sig", "short0", "short5", "short15", "replaced0", "replaced16", "replaced40"]:
+    for k in ["missing", "sig", "short0", "short5", "short15", "replaced0", "replaced16", "replaced40", "replaced_sig"]:
         out.append(Instance(f"open.{k}", open_case(k), goals=(["opened", "refused"] if k == "sig" else (["done"] if k == "missing" else ["refused"]))))
     return out
